@@ -306,6 +306,10 @@ def rule_rg5(ctx) -> None:
                 work.append(v.value.id)  # a field of a result object: trace the object
                 ctx.instance("C15-Rg5", "%s = %s (field of %s)" % (nm, src, v.value.id), rb.loc(stmt), ok=True, nontrivial=False)
                 continue
+            if isinstance(v, ast.Name):
+                work.append(v.id)  # a plain copy of another local: trace that one
+                ctx.instance("C15-Rg5", "%s = %s (copy)" % (nm, src), rb.loc(stmt), ok=True, nontrivial=False)
+                continue
             if isinstance(v, ast.Constant) and v.value is None:
                 ok = True
             elif isinstance(v, ast.Call):
